@@ -73,6 +73,41 @@ def run_one(c, env, clk):
     api = c["api"]
     a = c.get("args", {})
     s = c["seed"]
+    if api == "object_interleaved":
+        # a seeded OBJECT is built, then some other seeded operations run, then the object is used: the
+        # result must equal that of building and using it back to back ("regardless of what was called before")
+        def build():
+            kind = a["kind"]
+            if kind == "rgreedy":
+                from cotengra.pathfinders.path_basic import RandomGreedyOptimizer
+
+                o = RandomGreedyOptimizer(max_repeats=3, seed=s, parallel=False)
+                return lambda: {"ssa": o.search(*_net(c)).get_ssa_path()}
+            if kind == "random_opt":
+                from cotengra.pathfinders.path_random import RandomOptimizer
+
+                o = RandomOptimizer(seed=s)
+                return lambda: {"path": o(*_net(c))}
+            if kind == "slicefinder":
+                sf = ctg.SliceFinder(_tree(c), seed=s, target_size=a["target_size"], temperature=1.0)
+                return lambda: {"ix": sorted(sf.search(3)[0])}
+            if kind == "greedy_span":
+                from cotengra.pathfinders.path_compressed_greedy import GreedySpan
+
+                o = GreedySpan(seed=s, temperature=0.5)
+                return lambda: {"ssa": o.get_ssa_path(*_net(c))}
+            raise ValueError(kind)
+
+        use = build()
+        plain = use()
+        use = build()
+        # unrelated seeded calls in between
+        t = _tree(c)
+        t.subtree_reconfigure(seed=a["other_seed"], select="random", subtree_size=3, maxiter=2)
+        ctg.utils.rand_equation(5, 3, seed=a["other_seed"] + 1)
+        t.slice(target_slices=2, seed=a["other_seed"] + 2)
+        inter = use()
+        return {"plain": plain, "interleaved": inter, "same": canon(plain) == canon(inter)}
     if api == "rgreedy":
         from cotengra.pathfinders.path_basic import RandomGreedyOptimizer
 
@@ -136,6 +171,8 @@ def run_one(c, env, clk):
         from cotengra.pathfinders.path_compressed_greedy import GreedySpan
 
         return {"ssa": GreedySpan(seed=s, **a["kw"]).get_ssa_path(*_net(c))}
+    if api == "perverse_equation":
+        return {"eq": ctg.utils.perverse_equation(seed=s, **a["kw"])}
     if api == "rand_equation":
         return {"eq": ctg.utils.rand_equation(seed=s, **a["kw"])}
     if api == "randreg_equation":
